@@ -102,12 +102,34 @@ def strip_comments(src):
     return re.sub(r"--.*", "", src)
 
 
-def prove(modules, components=()):
-    """build the theorem modules; return dict(ok, theorems=[(name, axioms)], errors=[...])"""
+def imports_gen(modules):
+    """does the import closure of the theorem modules contain a generated file (JF/Gen)? Then the translator has to run first."""
+    todo, seen = list(modules), set()
+    while todo:
+        m = todo.pop()
+        if m in seen:
+            continue
+        seen.add(m)
+        fp = os.path.join(LEAN, *m.split(".")) + ".lean"
+        if os.path.exists(fp):
+            todo += re.findall(r"^import\s+(JF\.[\w.]+)", open(fp).read(), re.M)
+    return any(m.startswith("JF.Gen.") for m in seen)
+
+
+def prove(modules, components=(), pre=None):
+    """build the theorem modules; return dict(ok, theorems=[(name, axioms)], errors=[...]).
+    `pre` (the translator) runs under the same lock as the build, so that a concurrently running check of another tree cannot
+    regenerate JF/Gen between this check's translation and its build."""
     out = {"ok": True, "theorems": [], "errors": [],
            "cmd": "cd lean && lake build " + " ".join(["jf_" + c for c in components] + list(modules))}
 
     def work():
+        if pre is not None:
+            try:
+                pre()
+            except Exception as e:  # a source the translator cannot read is a broken tie, not a harness crash
+                out["ok"] = False
+                out["errors"].append(f"translator failed: {e!r}")
         p = _lake(["build"] + ["jf_" + c for c in components] + list(modules))
         if p.returncode != 0:
             out["ok"] = False
@@ -236,18 +258,12 @@ def main(argv=None):
         ctx = Ctx(pid, a.tier, seed, root)
 
         # translator: regenerate JF/Gen from the scratch copy
-        gen_err = None
-        if getattr(mod, "NEEDS_GEN", False):
+        tmods = getattr(mod, "THEOREM_MODULES", [f"JF.Props.{pid}"])
+        pre = None
+        if getattr(mod, "NEEDS_GEN", False) or imports_gen(tmods):
             from harness import translate
-            try:
-                _locked(lambda: translate.regenerate(root))
-            except Exception as e:  # a source the translator cannot read is a broken tie, not a harness crash
-                gen_err = f"translator failed: {e!r}"
-
-        proof = prove(getattr(mod, "THEOREM_MODULES", [f"JF.Props.{pid}"]), getattr(mod, "COMPONENTS", ()))
-        if gen_err:
-            proof["ok"] = False
-            proof["errors"].append(gen_err)
+            pre = lambda: translate.regenerate(root)
+        proof = prove(tmods, getattr(mod, "COMPONENTS", ()), pre)
 
         if a.replay:
             case = json.load(open(a.replay))
